@@ -28,6 +28,26 @@ MUTS = [
 ]
 
 
+# round 2: (id, property, file, old, new, kind, what, occurrence (1-based; 0 = must be unique))
+MUTS2 = [
+ ('N1', 'C17', 'src/primitives/line/bresenham.rs', 'if *error > self.error_threshold {', 'if *error >= self.error_threshold {', 'break', 'increase_error (`&mut i32` parameter): `>` -> `>=`', 0),
+ ('N2', 'C17', 'src/primitives/line/thick_points.rs', '(i64::from(thickness) * 2).pow(2) * length_squared', '(i64::from(thickness) * 3).pow(2) * length_squared', 'break', 'ParallelsIterator::new: literal 2 -> 3 in the thickness threshold', 0),
+ ('N3', 'C17', 'src/primitives/line/thick_points.rs', 'self.thickness_accumulator += self.perpendicular_parameters.error_step.minor;', 'self.thickness_accumulator += self.perpendicular_parameters.error_step.major;', 'break', 'ParallelsIterator::next: error_step.minor -> .major for Normal parallels', 0),
+ ('N4', 'C16', 'core/src/primitives/rectangle/points.rs', 'self.x.start = self.x_start;', 'self.x.start = self.x_start + 1;', 'break', 'rectangle::Points::next (while loop): row restart off by one', 0),
+ ('N5', 'C18', 'src/primitives/common/distance_iterator.rs', 'let delta = point * 2 - self.center_2x;', 'let delta = point * 2 + self.center_2x;', 'break', 'DistanceIterator::next: `-` -> `+`', 0),
+ ('N6', 'C12', 'core/src/pixelcolor/rgb_color.rs', 'let g_shifted = (g & Self::MAX_G) as $storage_type << $g_pos;', 'let g_shifted = (g & Self::MAX_R) as $storage_type << $g_pos;', 'break', 'impl_rgb_color! new (macro body): MAX_G -> MAX_R', 0),
+ ('N7', 'C13', 'core/src/pixelcolor/conversion.rs', 'convert_channel::<{$from_type::MAX_G}, {$to_type::MAX_G}>(other.g()),', 'convert_channel::<{$from_type::MAX_G}, {$to_type::MAX_G}>(other.b()),', 'break', 'impl_rgb_conversion! (macro body): g() -> b()', 0),
+ ('N8', 'C13', 'core/src/pixelcolor/conversion.rs', '(color.luma() >= $type::GRAY_50.luma()).into()', '(color.luma() > $type::GRAY_50.luma()).into()', 'break', 'impl_gray_to_binary! (macro body): `>=` -> `>`', 0),
+ ('N9', 'C07', 'src/primitives/common/line_join.rs', 'if !params.nearly_colinear_has_error() {\n            (point, outer_side)', 'if params.nearly_colinear_has_error() {\n            (point, outer_side)', 'break', 'intersections: dropped `!`', 0),
+ ('N10', 'C05', 'src/primitives/rounded_rectangle/ellipse_quadrant.rs', 'Quadrant::TopRight => top_left - radius.x_axis(),', 'Quadrant::TopRight => top_left - radius.y_axis(),', 'break', 'EllipseQuadrant::new: x_axis -> y_axis', 0),
+ ('N11', 'C18', 'src/primitives/common/plane_sector.rs', 'distance_left <= -inside_threshold,', 'distance_left <= inside_threshold,', 'break', 'PlaneSector::point_type: dropped negation', 0),
+ ('N12', 'C02', 'src/primitives/circle/styled.rs', 'let offset = style.outside_stroke_width().saturating_as();\n\n        self.bounding_box().offset(offset)', 'let offset = style.inside_stroke_width().saturating_as();\n\n        self.bounding_box().offset(offset)', 'break', 'Circle styled_bounding_box: outside -> inside stroke width', 0),
+ ('N13', 'C11', 'core/src/pixelcolor/raw/load_store.rs', '(*byte & !(Self::MASK << bit_index)) | (self.into_inner() << bit_index);', '(*byte & (Self::MASK << bit_index)) | (self.into_inner() << bit_index);', 'break', 'impl_load_store_bits! store (macro body, slice idiom): dropped `!`', 0),
+ ('Q1', 'C17', 'src/primitives/line/thick_points.rs', None, None, 'preserve', 'next_parallel: local error_before_decrease renamed', 0),
+ ('Q2', 'C05', 'src/primitives/rounded_rectangle/mod.rs', 'let rows = rounded_rectangle.rectangle.rows();\n        let columns = rounded_rectangle.rectangle.columns();', 'let columns = rounded_rectangle.rectangle.columns();\n        let rows = rounded_rectangle.rectangle.rows();', 'preserve', 'RoundedRectangleContains::new: independent lets reordered', 0),
+]
+
+
 def sh(cmd, env=None, timeout=3600):
     p = subprocess.run(cmd, shell=True, cwd=V, env=dict(os.environ, **(env or {})), stdout=subprocess.PIPE, stderr=subprocess.STDOUT, text=True, timeout=timeout)
     return p.returncode, p.stdout
@@ -37,6 +57,8 @@ def special(mid, txt):
     if mid == 'M6':
         return txt.replace('point.dot_product(self.normal_vector) - self.origin_distance\n    }\n\n    /// Checks if a point is on the given side of the line.',
                            'self.origin_distance - point.dot_product(self.normal_vector)\n    }\n\n    /// Checks if a point is on the given side of the line.', 1)
+    if mid == 'Q1':
+        return txt.replace('error_before_decrease', 'before')
     if mid == 'M7':
         i = txt.index('pub fn next(&mut self, parameters: &BresenhamParameters) -> Point {')
         j = txt.index('if self.error > parameters.error_threshold {', i)
@@ -62,8 +84,11 @@ def first_failing_lemma(out):
 def main():
     want = sys.argv[1:]
     rows = []
-    for mid, prop, f, old, new, kind, what in MUTS:
+    allm = [m + (0,) for m in MUTS] + MUTS2
+    for mid, prop, f, old, new, kind, what, occ in allm:
         if want and mid not in want:
+            continue
+        if not want and mid[0] in 'NQ':
             continue
         sh('git -C /repo worktree remove --force %s; git -C /repo worktree prune' % S)
         rc, o = sh('git -C /repo worktree add --detach %s HEAD' % S)
@@ -77,8 +102,17 @@ def main():
         assert t2 != txt, mid
         open(p, 'w').write(t2)
         env = {'EG_REPO': S}
+        # the other table translators first (their tables feed some of the models), then r2c
+        others = []
+        for g in sorted(os.listdir(os.path.join(V, 'translate'))):
+            if g.startswith('gen_') and g.endswith('.py') and g != 'gen_r2c.py':
+                rc0, _ = sh('python3 translate/%s' % g, env)
+                if rc0 != 0:
+                    others.append(g)
         rc, o = sh('sh translate/r2c/run.sh', env)
         changed = re.findall(r'Gen/(\w+)\.v written', o)
+        if others:
+            changed.append('(also refused by: %s)' % ','.join(others))
         trc = rc
         sh('sh tools/gen_coqproject.sh')
         rc, o = sh('timeout 1500 make -k -j4 -C coq $(cd coq && ls Properties/*_src*.v | sed s/\\.v$/.vo/)')
@@ -100,7 +134,10 @@ def main():
         rows.append((mid, prop, what, kind, 'translator rc=%d; changed: %s' % (trc, ','.join(changed) or 'none'), lemma or 'all equivalence proofs still compile', verdict, '%.0fs' % (time.time() - t0)))
         print('| ' + ' | '.join(rows[-1]) + ' |', flush=True)
         sh('git -C /repo worktree remove --force %s; git -C /repo worktree prune' % S)
-    sh('sh translate/r2c/run.sh')   # back to /repo
+    for g in sorted(os.listdir(os.path.join(V, 'translate'))):
+        if g.startswith('gen_') and g.endswith('.py'):
+            sh('python3 translate/%s' % g)   # back to /repo
+    sh('sh translate/r2c/run.sh')
     sh('timeout 1500 make -j4 -C coq $(cd coq && ls Properties/*_src*.v | sed s/\\.v$/.vo/)')
 
 
